@@ -1,7 +1,7 @@
 """C05 A modified encrypted file never decrypts successfully to different plaintext."""
 from .common import combined
 LEVEL = 'other'
-RULES = ('R05.a', 'R05.d', 'S-GATE', 'S-CMP', 'R05.e', 'R12.a', 'R08.b', 'R07.e', 'R07.d', 'R07.g', 'R07.t', 'R06.a', 'R06.c')
+RULES = ('R05.a', 'R05.d', 'S-GATE', 'S-CMP', 'R05.e', 'R12.a', 'R08.b', 'R07.e', 'R07.d', 'R07.g', 'R07.t', 'R06.a', 'R06.c', 'R08.r')
 
 
 def run(prog, rec, tier):
